@@ -175,8 +175,9 @@ def containsSub (p : Bytes) : Bytes → Bool
   | [] => p.isEmpty
   | s@(_ :: t) => p.isPrefixOf s || containsSub p t
 
-/-- `needsSingleQuoting` -/
-def needsSingleQuoting (s : Bytes) : Bool := s == b "?" || hasPrefix (b "? ") s || s == b "<<"
+/-- `needsSingleQuoting` (since /repo c5058c4: also a suffix `<<` and a prefix `...`) -/
+def needsSingleQuoting (s : Bytes) : Bool :=
+  s == b "?" || hasPrefix (b "? ") s || hasSuffix (b "<<") s || hasPrefix (b "...") s
 
 /-- `yamlUnprintable`: `for i, r := range s` with the model's own UTF-8 decoder; an invalid
 byte shows up as (U+FFFD, width 1) -/
@@ -192,14 +193,28 @@ def yamlUnprintableLoop : Nat → Bytes → Bool
 
 def yamlUnprintable (s : Bytes) : Bool := yamlUnprintableLoop s.length s
 
-/-- `blockLiteralSafe` -/
-def blockLiteralSafe (s : Bytes) : Bool :=
+/-- `blockLiteralSafe` as it was before /repo 05f5435 (history; no longer tied to the tree) -/
+def blockLiteralSafeOld (s : Bytes) : Bool :=
   match s with
   | [] => false
   | c :: _ =>
     if c == 32 || c == 9 then false
     else if containsSub [32, 10] s || hasSuffix [32] s then false
     else !yamlUnprintable s
+
+/-- `blockLiteralSafe` (since /repo 05f5435 the first non-empty line must exist and must not
+start with a blank or tab: the block's indentation is detected from it) -/
+def blockLiteralSafe (s : Bytes) : Bool :=
+  match s with
+  | [] => false
+  | c :: _ =>
+    if c == 32 || c == 9 then false
+    else match s.dropWhile (· == 10) with
+      | [] => false
+      | f :: _ =>
+        if f == 32 || f == 9 then false
+        else if containsSub [32, 10] s || hasSuffix [32] s then false
+        else !yamlUnprintable s
 
 inductive NumKind where
   | illegal | int | float
@@ -254,10 +269,10 @@ inductive Decision where
   | lib         -- handed to the library as a Go string: the library quotes or leaves plain
 deriving DecidableEq, Repr
 
-/-- `quoteScalar` -/
+/-- `quoteScalar` (since /repo c5058c4 single quotes only when nothing needs escaping) -/
 def quoteScalar (lx : Lex) (s : Bytes) : Decision :=
-  if needsSingleQuoting s then .single
-  else if shouldQuote lx s then .double
+  if needsSingleQuoting s && !yamlUnprintable s then .single
+  else if shouldQuote lx s || needsSingleQuoting s then .double
   else .lib
 
 /-- the string branch of `encodeScalar` (`multi` = the CUE literal is a multi-line one) -/
@@ -408,14 +423,6 @@ def blockIllIndented (ls : List Bytes) : Bool :=
   match ls.find? (fun l => l.any (· != 32)) with
   | some l => ls.any fun l' => l'.any (· != 32) && decide (leadingSpaces l' < leadingSpaces l)
   | none => false
-
-/-- the repaired `blockLiteralSafe`: additionally reject strings made only of line breaks and
-strings whose first non-empty line begins with a blank (they need an indentation indicator) -/
-def blockLiteralSafeFixed (s : Bytes) : Bool :=
-  blockLiteralSafe s &&
-    (match (s.dropWhile (· == 10)).head? with
-     | none => false
-     | some c => c != 32 && c != 9)
 
 /-! ### double-quoted escapes: Go's strconv.Quote vs YAML 1.2 §5.7 -/
 
